@@ -64,6 +64,19 @@ fn any_cookie_config() -> SessionCookieConfig {
     c
 }
 
+#[cfg(not(test))]
+fn vtrace_c12(_c: &SessionCookieConfig, _enc: bool, _sign: bool) {}
+#[cfg(test)]
+fn vtrace_c12(c: &SessionCookieConfig, enc: bool, sign: bool) {
+    let q = |o: &Option<String>| match o { Some(s) => format!("\"{s}\""), None => "null".to_string() };
+    let ss = match c.same_site { None => "null", Some(SameSite::Strict) => "\"strict\"", Some(SameSite::Lax) => "\"lax\"", Some(SameSite::None) => "\"none\"" };
+    vtrace(format!(
+        "{{\"kind\":\"c12\",\"cookie\":{{\"name\":\"{}\",\"domain\":{},\"path\":{},\"secure\":{},\"http_only\":{},\"same_site\":{},\"kind\":\"{}\"}},\"middleware\":{{\"encrypts\":{},\"signs\":{}}}}}",
+        c.name, q(&c.domain), q(&c.path), c.secure, c.http_only, ss,
+        if c.kind == SessionCookieKind::Persistent { "persistent" } else { "session" }, enc, sign
+    ));
+}
+
 /// returns (outcome code: 0 err-crypto, 1 err-encryption, 2 other error, 3 ok without cookie, 4 ok with cookie; client non-empty)
 fn middleware_body(only: IdK) -> (u8, bool) {
     let w = any_world_k(any_cookie_config(), Some(only));
@@ -74,6 +87,8 @@ fn middleware_body(only: IdK) -> (u8, bool) {
     let will_sign = processor.will_sign("");
     let mut jar = ResponseCookies::default();
     let client_non_empty = !m.client_is_empty();
+    vtrace_c12(&w.cfg.cookie, processor.encrypts, processor.signs);
+    vtrace_op("finalize", 0, NONE);
     let r = finalize_session(Response, &mut jar, &processor, s);
     let cc = &w.cfg.cookie;
     let code = match &r {
